@@ -248,10 +248,13 @@ pub fn check_leak(lc: &LeakCase, cc: &mut CaseCtx) -> CheckResult {
     {
         let too_long = format!("{}{}", lc.secret, "-padding-that-makes-the-secret-exceed-forty-bytes");
         let (_, l1) = exec::with_logs(|| {
-            let a = KSecretKey::<44>::from_str(&too_long).map(|_| ()).map_err(|e| format!("{} {:?}", e, e));
-            let b = KSecretKey::<8>::from_str(&lc.secret).map(|_| ()).map_err(|e| format!("{} {:?}", e, e));
-            let c = KSecretKey::<64>::from_str(&lc.secret).map(|k| format!("{:?}", k.clone() == k)).map_err(|e| format!("{} {:?}", e, e));
-            format!("{:?}{:?}{:?}", a, b, c)
+            // (a panic here is C06/C08's business, not a leak)
+            let _ = std::panic::catch_unwind(|| {
+                let a = KSecretKey::<44>::from_str(&too_long).map(|_| ()).map_err(|e| format!("{} {:?}", e, e));
+                let b = KSecretKey::<8>::from_str(&lc.secret).map(|_| ()).map_err(|e| format!("{} {:?}", e, e));
+                let c = KSecretKey::<64>::from_str(&lc.secret).map(|k| format!("{:?}", k.clone() == k)).map_err(|e| format!("{} {:?}", e, e));
+                format!("{:?}{:?}{:?}", a, b, c)
+            });
         });
         for (lvl, msg) in &l1 {
             if *lvl <= log::Level::Debug {
